@@ -92,6 +92,7 @@ func isByteSeqType(t types.Type) bool {
 
 // SortOf maps a Go type to a sort. It returns an error for unsupported types.
 func (c *SortCtx) SortOf(t types.Type) (*Sort, error) {
+	t = types.Unalias(t) // `type refKey = jsonpointer.RefKey` is the same type, hence the same sort
 	switch u := t.Underlying().(type) {
 	case *types.Basic:
 		switch {
